@@ -1132,3 +1132,34 @@ def quotient(lang, pre, suf):
         if lang.acc[t]:
             acc.add(q)
     return from_function(alpha, [], q0, lambda s, sym: lang.trans[s][sym], lambda s: s in acc, lang.classes())
+
+
+def concat(A, B):
+    """L(A)·L(B) for marker-free languages"""
+    A._compat(B)
+    if A.markers:
+        raise AnalysisError('internal: concat of marked languages')
+
+    def close(S):
+        if any(t == 'a' and A.acc[q] for t, q in S):
+            S = S | {('b', 0)}
+        return frozenset(S)
+
+    def step(S, sym):
+        return close({('a', A.trans[q][sym]) if t == 'a' else ('b', B.trans[q][sym]) for t, q in S})
+    return from_function(A.alpha, [], close({('a', 0)}), step, lambda S: any(t == 'b' and B.acc[q] for t, q in S),
+                         classes=split_classes(A.classes(), B.classes()))
+
+
+def star(A):
+    """L(A)* for a marker-free language"""
+    if A.markers:
+        raise AnalysisError('internal: star of a marked language')
+
+    def step(s, sym):
+        first, S = s
+        nxt = {A.trans[q][sym] for q in S}
+        if any(A.acc[q] for q in nxt):
+            nxt.add(0)
+        return (False, frozenset(nxt))
+    return from_function(A.alpha, [], (True, frozenset({0})), step, lambda s: s[0] or any(A.acc[q] for q in s[1]), classes=A.classes())
